@@ -57,6 +57,7 @@ func init() {
 		verifScenario{"C12/interp.typecheck.comparison/post:equality-needs-comparable-or-nil", rejected("package main\nfunc main() { a, b := []int{1}, []int{1}; println(\"ran\"); println(a == b) }")},
 		verifScenario{"C12/interp.typecheck.comparison/post:ordering-needs-ordered", rejected("package main\nfunc main() { a, b := true, false; println(\"ran\"); println(a < b) }")},
 		verifScenario{"C12/interp.typecheck.comparison/post:operands-mutually-assignable", rejected("package main\nfunc main() { a, b := 1, \"x\"; println(\"ran\"); println(a == b) }")},
+		verifScenario{"C12/interp.itype.convertibleTo/*", rejected("package main\nfunc main() { x := 1; p := &x; println(\"ran\"); _ = int(p) }")},
 		verifScenario{"C12/probe-unrelated", rejected("package main\ntype A int\ntype B int\nfunc main() { var a A = 1; var b B = a; println(b) }")},
 	)
 }
@@ -87,6 +88,7 @@ func init() {
 	const pre = "package main\nfunc main() { a := []int{0,1,2,3,4,5,6,7}; lo, hi, mx := 1, 3, 6; _, _, _ = lo, hi, mx\n"
 	verifProtocolScenarios = append(verifProtocolScenarios,
 		verifScenario{"C04/interp.slice0/*", prints(pre+"b := a[:hi:mx]; c := a[:hi]; d := a[:]; println(len(b), cap(b), len(c), cap(c), len(d), cap(d)) }", "3 6 3 8 8 8\n")},
+		verifScenario{"C04/interp.call/mentions:vararg/*", prints("package main\nfunc set(xs ...int) int { xs[0] = 9; return cap(xs) }\nfunc main() { s := make([]int, 3, 8); c := set(s...); println(s[0], c) }", "9 8\n")},
 		verifScenario{"C04/interp.slice/*", prints(pre+"b := a[lo:hi:mx]; c := a[lo:hi]; d := a[lo:]; println(len(b), cap(b), b[0], len(c), cap(c), c[0], len(d), cap(d), d[0]) }", "2 5 1 2 7 1 7 7 1\n")},
 	)
 }
@@ -117,6 +119,10 @@ func init() {
 		}
 	}
 	verifProtocolScenarios = append(verifProtocolScenarios,
+		verifScenario{"C03/interp.representableConst/post:complex64-both-parts-finite*", rejectedC("func main() { var c complex64 = 1e39i; println(real(c)) }")},
+		verifScenario{"C03/interp.representableConst/post:complex128-both-parts-finite*", rejectedC("func main() { var c complex128 = 1e309i; println(real(c)) }")},
+		verifScenario{"C03/interp.representableConst/post:float32-finite*", rejectedC("func main() { var f float32 = 1e39; println(f) }")},
+		verifScenario{"C03/interp.representableConst/post:float64-finite*", rejectedC("func main() { var f float64 = 1e309; println(f) }")},
 		verifScenario{"C03/interp.Interpreter.cfg/case:sendStmt/*", rejectedC("func main() { ch := make(chan int8, 1); ch <- 200; println(<-ch) }")},
 		verifScenario{"C03/interp.typecheck.binaryExpr/*", rejectedC("func main() { var x int8 = 1; println(x == 200) }")},
 		verifScenario{"C03/interp.Interpreter.cfg/case:returnStmt/*", rejectedC("func f() int8 { return 200 }\nfunc g() int { return 1.5 }\nfunc h() uint { return -1 }\nfunc main() { println(f(), g(), h()) }")},
